@@ -1063,33 +1063,41 @@ func c15TokenAssigned(p *Program, r *Report, sm *scanModel) {
 	if scan == nil {
 		return
 	}
-	// the phi of the int result with the most edges
-	var tokPhi *ssa.Phi
+	// the token-code result of the returns: follow the merges down to the values that are assigned
+	n := 0
+	seen := map[*ssa.Phi]bool{}
+	var walk func(v ssa.Value, from *ssa.BasicBlock)
+	walk = func(v ssa.Value, from *ssa.BasicBlock) {
+		if ph, ok := v.(*ssa.Phi); ok {
+			if seen[ph] {
+				return
+			}
+			seen[ph] = true
+			for i, e := range ph.Edges {
+				walk(e, ph.Block().Preds[i])
+			}
+			return
+		}
+		n++
+		c, isConst := v.(*ssa.Const)
+		zero := isConst && c.Value != nil && c.Int64() == 0
+		site := p.Pos(scan.Pos())
+		if from != nil {
+			site = p.Pos(instrPos(from.Instrs[len(from.Instrs)-1]))
+		}
+		r.Check(!zero, "C15.R11", fmt.Sprintf("Scan|token code #%d", n), site, "a token code is assigned", "a path reaches the end of the scanning function with the token code still zero: the parser takes it for the end of input and silently drops the rest of the program")
+	}
 	for _, b := range scan.Blocks {
-		for _, in := range b.Instrs {
-			ph, ok := in.(*ssa.Phi)
-			if !ok {
-				continue
-			}
-			if bt, ok := ph.Type().Underlying().(*types.Basic); !ok || bt.Kind() != types.Int {
-				continue
-			}
-			if tokPhi == nil || len(ph.Edges) > len(tokPhi.Edges) {
-				tokPhi = ph
+		ret, ok := b.Instrs[len(b.Instrs)-1].(*ssa.Return)
+		if !ok {
+			continue
+		}
+		// error returns hand back whatever was there: only returns whose error result can be nil count
+		if len(ret.Results) == 4 {
+			if _, isPhi := ret.Results[0].(*ssa.Phi); isPhi {
+				walk(ret.Results[0], nil)
 			}
 		}
-	}
-	if tokPhi == nil || len(tokPhi.Edges) < 10 {
-		r.Undecided("C15.R11", "Scan|token code", p.Pos(scan.Pos()), "the merge of the token codes was not found")
-		return
-	}
-	n := 0
-	for i, e := range tokPhi.Edges {
-		n++
-		c, isConst := e.(*ssa.Const)
-		zero := isConst && c.Value != nil && c.Int64() == 0
-		pr := tokPhi.Block().Preds[i]
-		r.Check(!zero, "C15.R11", fmt.Sprintf("Scan|token code on edge %d", i), p.Pos(instrPos(pr.Instrs[len(pr.Instrs)-1])), "a token code is assigned", "a path reaches the end of the scanning function with the token code still zero: the parser takes it for the end of input and silently drops the rest of the program")
 	}
 	r.Floor("C15.R11", n, 20)
 }
